@@ -222,6 +222,9 @@ func (e *Engine) loadContracts() error {
 			}
 		}
 		for _, s := range sf.SpecFns {
+			if old, dup := e.specFns[s.Name]; dup {
+				return fmt.Errorf("%s: spec fn %s already defined in %s", path, s.Name, old.File)
+			}
 			e.specFns[s.Name] = s
 		}
 		for _, u := range sf.UFs {
